@@ -671,11 +671,14 @@ func parseDuration(input string) (int64, int32, bool) {
 
 	// Read the integer part.
 	var intp []byte
+	hasDigit := false // saw a digit in the integer or the fractional part
 	switch {
 	case b[0] == '0':
+		hasDigit = true
 		b = b[1:]
 
 	case '1' <= b[0] && b[0] <= '9':
+		hasDigit = true
 		intp = b[0:]
 		b = b[1:]
 		n := 1
@@ -708,6 +711,13 @@ func parseDuration(input string) (int64, int32, bool) {
 		}
 		// It is not valid if there are more bytes left.
 		if len(b) > 0 {
+			return 0, 0, false
+		}
+		// There needs to be at least an integer or a fractional digit.
+		if n > 0 {
+			hasDigit = true
+		}
+		if !hasDigit {
 			return 0, 0, false
 		}
 		// Pad fractional part with 0s.
